@@ -55,6 +55,8 @@ class ExecBase:
         s = z3.Solver()
         s.set("timeout", 400)
         for p in st.pc:
+            if _has_quantifier(p):
+                continue      # pruning uses the quantifier-free part only (weaker, still sound)
             s.add(p)
         if cond is not None:
             s.add(cond)
@@ -177,6 +179,29 @@ class ExecBase:
             raise UnsupportedError(f"assignment to unmodelled field {ref.ty.name}.{attr}")
         st.heap.write(rec, attr, fty, ref.t, val)
         self.note_heap_write(st, rec, attr)
+
+
+_qcache = {}
+
+
+def _has_quantifier(e):
+    key = e.get_id()
+    r = _qcache.get(key)
+    if r is None:
+        r = False
+        todo = [e]
+        seen = set()
+        while todo:
+            x = todo.pop()
+            if x.get_id() in seen:
+                continue
+            seen.add(x.get_id())
+            if z3.is_quantifier(x):
+                r = True
+                break
+            todo.extend(x.children())
+        _qcache[key] = r
+    return r
 
 
 def enum_value(v):
